@@ -144,6 +144,11 @@ type UP4 struct {
 	appMeterCellIDsPool  set.Set
 	sessMeterCellIDsPool set.Set
 
+	// stateMu serializes the (re)initialization of the datapath state and the processing of PFCP session rules,
+	// which can be requested concurrently by different PFCP associations. It guards counters, meters,
+	// the meter cell ID pools and the UE address <-> F-SEID mappings below.
+	stateMu sync.Mutex
+
 	// ueAddrToFSEID is used to store UE Address <-> F-SEID mapping,
 	// which is needed to efficiently find F-SEID when we receive a P4 Digest (DDN) for a UE address.
 	ueAddrToFSEID map[uint32]uint64
@@ -542,7 +547,12 @@ func (up4 *UP4) listenToDDNs() {
 			}
 
 			ueAddr := binary.BigEndian.Uint32(digestData)
-			if fseid, exists := up4.ueAddrToFSEID[ueAddr]; exists {
+
+			up4.stateMu.Lock()
+			fseid, exists := up4.ueAddrToFSEID[ueAddr]
+			up4.stateMu.Unlock()
+
+			if exists {
 				notifier.Notify(fseid)
 			}
 		}
@@ -556,8 +566,10 @@ func (up4 *UP4) clearDatapathState() error {
 		return err
 	}
 
+	up4.stateMu.Lock()
 	up4.initAllCounters()
 	up4.initMetersPools()
+	up4.stateMu.Unlock()
 
 	err = up4.initInterfaces()
 	if err != nil {
@@ -1484,6 +1496,9 @@ func (up4 *UP4) SendMsgToUPF(method upfMsgType, all PacketForwardingRules, updat
 		logger.PfcpLog.Errorln("UP4 server not connected")
 		return ie.CauseRequestRejected
 	}
+
+	up4.stateMu.Lock()
+	defer up4.stateMu.Unlock()
 
 	up4Log := logger.PfcpLog.With("method-type", method, "all", all, "updated-rules", updated)
 	up4Log.Debugln("sending PFCP message to UP4..")
